@@ -459,6 +459,8 @@ def write_evidence(ctx, level, nviol, known_counts, extra=None):
         "wall_s": round(time.time() - ctx.t0, 1),
         "violations": nviol,
     }
+    if os.environ.get("VERIF_NO_EVIDENCE"):
+        return ev      # mutation experiments (bin/seedtest) must not overwrite the evidence of the real tree
     os.makedirs(os.path.join(VERIF, "evidence"), exist_ok=True)
     with open(os.path.join(VERIF, "evidence", ctx.prop + ".json"), "w") as f:
         json.dump(ev, f, indent=1, ensure_ascii=False)
